@@ -34,6 +34,10 @@ Definition orow := (Z * option Z)%type.
 Record lcase := mkl {
   l_target : Z; l_gs : list gvar; l_lines : list hline; l_keep : list bool;
   l_ids : option (list Z); l_fg : bool;
+  l_vcf : bool;                          (* VCF (true) or PGEN input: only the pinned-tree model looks at it *)
+  l_empty_ok : bool;                     (* harness switch STRICT_EMPTY_HAPLOTYPE: true = the tree with
+                                            fixes/C16_empty_haplotype.patch, where a TARGET haplotype without
+                                            V lines is handled like a listed one; false = the tree before it *)
   l_obs : res (list orow);               (* rows of the .ld table / H lines of the .hap output *)
   l_sym : list (Z * res (option Z))      (* one further run per listed item B with target := B: the R
                                             printed for the original target in B's listing *)
@@ -47,9 +51,9 @@ Fixpoint nodupb (l : list Z) : bool :=
 
 Definition all_true {A} (l : list A) : list bool := map (fun _ => true) l.
 
+(* a haplotype may have no V line at all: it is then carried by every strand *)
 Definition hap_ok (gs : list gvar) (h : hap) : bool :=
-  match h_vars h with [] => false | _ => true end
-  && forallb (fun va : Z * Z => match find_var (fst va) gs with
+  forallb (fun va : Z * Z => match find_var (fst va) gs with
                                 | Some g => match allele_index g (snd va) with Some _ => true | None => false end
                                 | None => false end) (h_vars h).
 
@@ -76,8 +80,20 @@ Definition requested (c : lcase) : list Z :=
 
 Definition countZ (x : Z) (l : list Z) : Z := lenZ (filter (Z.eqb x) l).
 
+(* [id] names a haplotype without V lines *)
+Definition is_empty_hap (c : lcase) (id : Z) : bool :=
+  match find_hap id (load_haps None (l_lines c)) with
+  | Some h => match h_vars h with [] => true | _ :: _ => false end
+  | None => false
+  end.
+
+(* runs whose TARGET is a haplotype without V lines are not looked at by [holds] while the switch is
+   off (the tree before fixes/C16_empty_haplotype.patch raises ValueError for them) *)
+Definition skipped (c : lcase) (id : Z) : bool := negb (l_empty_ok c) && is_empty_hap c id.
+
 Definition holds_ld (c : lcase) : bool :=
   if negb (wf c) then true else
+  if skipped c (l_target c) then true else
   match l_obs c with
   | Err _ => false
   | Ok rows =>
@@ -95,6 +111,7 @@ Definition holds_ld (c : lcase) : bool :=
           (* LD(A,B) = LD(B,A): in the run with a listed item B as the target, the R printed for
              the original target is the correlation of B's dosage with the target's *)
           && forallb (fun s : Z * res (option Z) =>
+                        if skipped c (fst s) then true else
                         match snd s with
                         | Ok r => match dosage_of c (l_fg c) (fst s) with
                                   | Some d => r_near r (corr d td)
@@ -114,12 +131,13 @@ Fixpoint all2 {A B} (e : A -> B -> bool) (l1 : list A) (l2 : list B) : bool :=
 Definition rows_agree (m : list row) (o : list orow) : bool :=
   all2 (fun (a : row) (b : orow) => (fst a =? fst b) && r_near (snd b) (snd a)) m o.
 
+(* calc_ld_cli false, through the switch *)
 Definition model_ld (c : lcase) : res (list row) :=
-  calc_ld_cli false (l_target c) (l_gs c) (l_lines c) (l_keep c) (l_ids c) (l_fg c).
+  calc_ld_sw (l_empty_ok c) (l_vcf c) (l_target c) (l_gs c) (l_lines c) (l_keep c) (option_map dedup (l_ids c)) (l_fg c).
 
 (* the swapped run: target B, listing chosen so that the original target appears *)
 Definition model_sym (c : lcase) (b : Z) : res (option (Z * Q)) :=
-  bind (calc_ld false b (l_gs c) (l_lines c) (l_keep c) None (negb (target_is_hap c)))
+  bind (calc_ld_sw (l_empty_ok c) (l_vcf c) b (l_gs c) (l_lines c) (l_keep c) None (negb (target_is_hap c)))
        (fun rows => match find (fun r : row => fst r =? l_target c) rows with
                     | Some r => Ok (snd r)
                     | None => Err E_Unobserved end).
